@@ -394,12 +394,19 @@ pub fn tx_monitors(h: &Hist, ms: &mut MonState, b: &Obs, line: &str, res: &str, 
             let changed = match after { Some(q) => q.lp_asset.amount != p.lp_asset.amount || q.open != p.open || q.receiver != p.receiver, None => true };
             if changed {
                 out.push(format!("mon_pos_changed {}", (h.w.n(p.receiver.as_str()) == tx.sender) as u8));
+                // C14: a single-asset deposit never touches a position of someone other than the sender
+                if tx.contract == "pm" && tx.kind == "provide" && tx.funds.len() == 1 {
+                    out.push(format!("mon_single_lock {}", (h.w.n(p.receiver.as_str()) == tx.sender) as u8));
+                }
             }
         }
         for q in a.positions.iter() {
             if !b.positions.iter().any(|p| p.identifier == q.identifier) {
                 // new position: created by its owner, or by the pool manager for the depositor (= tx sender)
                 out.push(format!("mon_pos_created {} {}", (h.w.n(q.receiver.as_str()) == tx.sender) as u8, (tx.contract == "pm") as u8));
+                if tx.contract == "pm" && tx.kind == "provide" && tx.funds.len() == 1 {
+                    out.push(format!("mon_single_lock {}", (h.w.n(q.receiver.as_str()) == tx.sender) as u8));
+                }
             }
         }
     }
